@@ -45,6 +45,16 @@ Definition mtype_bit (t : mtype) : Z :=
   end.
 
 (* API calls of a script; windows are named by their address = 1 + creation index *)
+(* the events a handler can be bound to: TICKIT_WINDOW_ON_KEY, _MOUSE, _EXPOSE, _FOCUS, _GEOMCHANGE *)
+(* HDestroy: a binding for TICKIT_WINDOW_ON_DESTROY.  The model records it but does NOT run it: what a DESTROY handler
+   does is outside the model (scripts with such handlers are judged by the discipline on the observed trace only) *)
+Inductive hkind := HKey | HMouse | HExpose | HFocus | HGeom | HDestroy.
+Definition hkind_eqb (a b : hkind) : bool :=
+  match a, b with
+  | HKey, HKey | HMouse, HMouse | HExpose, HExpose | HFocus, HFocus | HGeom, HGeom | HDestroy, HDestroy => true
+  | _, _ => false
+  end.
+
 Inductive op :=
 | ONew (p : positive) (hidden lowest rootparent steal : bool)
 | ORef (w : positive) | OUnref (w : positive) | OClose (w : positive)
@@ -53,22 +63,30 @@ Inductive op :=
 | OSteal (w : positive) (b : bool)
 | OExpose (w : positive) | OGetRoot (w : positive) | OFlush (w : positive)
 | OKey | OMouse (t : mtype)
-| OBind (w : positive) (id : Z) (key : bool) (mask : Z) (ret : bool) (actions : list op)
+| OBind (w : positive) (id : Z) (kind : hkind) (mask : Z) (ret : bool) (actions : list op)
 | OUnbind (w : positive) (id : Z)          (* tickit_window_unbind_event_id of the handler bound as number [id] *)
 | OGeom (w : positive)                     (* tickit_window_set_geometry to a different size: GEOMCHANGE runs on w *)
+| OTouch (w : positive) (j : ptr) (walk : bool)   (* a call that only reads window [w] (and [j]): tickit_window_set_pen / get_pen;
+                                                     with [walk]: tickit_window_scrollrect, which also walks from [w] to the root *)
+| ONotify (w : positive) (b : bool)        (* tickit_window_set_focus_child_notify *)
+| OMove (w : positive)                     (* tickit_window_reposition to a different place: GEOMCHANGE runs on w *)
+| OResize                                  (* the terminal grows by a line: on_term_resize resizes the root (GEOMCHANGE)
+                                              and exposes the new line; the harness then exposes the whole root *)
 | ONop
 (* not client calls: the reference a dispatch frame of the library takes on the window it works on, and its
    release.  The dispatch functions write them into the trace, so that a discipline can tell the client's
    references from the library's *)
 | OFrameRef (w : positive) | OFrameUnref (w : positive).
 
-Record handler := mkH { h_id : Z; h_key : bool; h_mask : Z; h_ret : bool; h_actions : list op }.
+Record handler := mkH { h_id : Z; h_kind : hkind; h_mask : Z; h_ret : bool; h_actions : list op }.
+Definition h_is (k : hkind) (h : handler) : bool := hkind_eqb (h_kind h) k.
 
 Record wcell := mkW {
   w_parent : ptr; w_first : ptr; w_next : ptr; w_focus : ptr;
   w_ref : Z;
   w_closed : bool; w_isroot : bool; w_visible : bool; w_steal : bool; w_focused : bool;
-  w_hs : list handler }.
+  w_hs : list handler;
+  w_fcn : bool }.      (* focus_child_notify *)
 
 Record qcell := mkQ { q_change : change; q_parent : ptr; q_win : ptr; q_next : ptr }.
 
@@ -160,16 +178,17 @@ Definition setr (a : positive) (r : rootx) : M unit :=
   if w_isroot c then (fun h => Ok tt (mkHeap (wins h) (reqs h) r (nextw h) (nextq h) (dlog h) (uninit_seen h) (tr h)))
   else fail OOB.
 
-Definition set_parent (c : wcell) (p : ptr) := mkW p (w_first c) (w_next c) (w_focus c) (w_ref c) (w_closed c) (w_isroot c) (w_visible c) (w_steal c) (w_focused c) (w_hs c).
-Definition set_first (c : wcell) (p : ptr) := mkW (w_parent c) p (w_next c) (w_focus c) (w_ref c) (w_closed c) (w_isroot c) (w_visible c) (w_steal c) (w_focused c) (w_hs c).
-Definition set_next (c : wcell) (p : ptr) := mkW (w_parent c) (w_first c) p (w_focus c) (w_ref c) (w_closed c) (w_isroot c) (w_visible c) (w_steal c) (w_focused c) (w_hs c).
-Definition set_focus (c : wcell) (p : ptr) := mkW (w_parent c) (w_first c) (w_next c) p (w_ref c) (w_closed c) (w_isroot c) (w_visible c) (w_steal c) (w_focused c) (w_hs c).
-Definition set_ref (c : wcell) (n : Z) := mkW (w_parent c) (w_first c) (w_next c) (w_focus c) n (w_closed c) (w_isroot c) (w_visible c) (w_steal c) (w_focused c) (w_hs c).
-Definition set_closed (c : wcell) (b : bool) := mkW (w_parent c) (w_first c) (w_next c) (w_focus c) (w_ref c) b (w_isroot c) (w_visible c) (w_steal c) (w_focused c) (w_hs c).
-Definition set_visible (c : wcell) (b : bool) := mkW (w_parent c) (w_first c) (w_next c) (w_focus c) (w_ref c) (w_closed c) (w_isroot c) b (w_steal c) (w_focused c) (w_hs c).
-Definition set_steal (c : wcell) (b : bool) := mkW (w_parent c) (w_first c) (w_next c) (w_focus c) (w_ref c) (w_closed c) (w_isroot c) (w_visible c) b (w_focused c) (w_hs c).
-Definition set_focused (c : wcell) (b : bool) := mkW (w_parent c) (w_first c) (w_next c) (w_focus c) (w_ref c) (w_closed c) (w_isroot c) (w_visible c) (w_steal c) b (w_hs c).
-Definition set_hs (c : wcell) (l : list handler) := mkW (w_parent c) (w_first c) (w_next c) (w_focus c) (w_ref c) (w_closed c) (w_isroot c) (w_visible c) (w_steal c) (w_focused c) l.
+Definition set_parent (c : wcell) (p : ptr) := mkW p (w_first c) (w_next c) (w_focus c) (w_ref c) (w_closed c) (w_isroot c) (w_visible c) (w_steal c) (w_focused c) (w_hs c) (w_fcn c).
+Definition set_first (c : wcell) (p : ptr) := mkW (w_parent c) p (w_next c) (w_focus c) (w_ref c) (w_closed c) (w_isroot c) (w_visible c) (w_steal c) (w_focused c) (w_hs c) (w_fcn c).
+Definition set_next (c : wcell) (p : ptr) := mkW (w_parent c) (w_first c) p (w_focus c) (w_ref c) (w_closed c) (w_isroot c) (w_visible c) (w_steal c) (w_focused c) (w_hs c) (w_fcn c).
+Definition set_focus (c : wcell) (p : ptr) := mkW (w_parent c) (w_first c) (w_next c) p (w_ref c) (w_closed c) (w_isroot c) (w_visible c) (w_steal c) (w_focused c) (w_hs c) (w_fcn c).
+Definition set_ref (c : wcell) (n : Z) := mkW (w_parent c) (w_first c) (w_next c) (w_focus c) n (w_closed c) (w_isroot c) (w_visible c) (w_steal c) (w_focused c) (w_hs c) (w_fcn c).
+Definition set_closed (c : wcell) (b : bool) := mkW (w_parent c) (w_first c) (w_next c) (w_focus c) (w_ref c) b (w_isroot c) (w_visible c) (w_steal c) (w_focused c) (w_hs c) (w_fcn c).
+Definition set_visible (c : wcell) (b : bool) := mkW (w_parent c) (w_first c) (w_next c) (w_focus c) (w_ref c) (w_closed c) (w_isroot c) b (w_steal c) (w_focused c) (w_hs c) (w_fcn c).
+Definition set_steal (c : wcell) (b : bool) := mkW (w_parent c) (w_first c) (w_next c) (w_focus c) (w_ref c) (w_closed c) (w_isroot c) (w_visible c) b (w_focused c) (w_hs c) (w_fcn c).
+Definition set_focused (c : wcell) (b : bool) := mkW (w_parent c) (w_first c) (w_next c) (w_focus c) (w_ref c) (w_closed c) (w_isroot c) (w_visible c) (w_steal c) b (w_hs c) (w_fcn c).
+Definition set_hs (c : wcell) (l : list handler) := mkW (w_parent c) (w_first c) (w_next c) (w_focus c) (w_ref c) (w_closed c) (w_isroot c) (w_visible c) (w_steal c) (w_focused c) l (w_fcn c).
+Definition set_fcn (c : wcell) (b : bool) := mkW (w_parent c) (w_first c) (w_next c) (w_focus c) (w_ref c) (w_closed c) (w_isroot c) (w_visible c) (w_steal c) (w_focused c) (w_hs c) b.
 
 (* one field write = read the cell, write it back *)
 Definition upd (a : positive) (f : wcell -> wcell) : M unit := c <- getw a ;; setw a (f c).
@@ -486,7 +505,11 @@ Definition root_cleanup (fuel : nat) (w : positive) : M unit :=
   cw <- getw w ;;
   if w_isroot cw then (if v_root_keeps_q V then ret tt else free_queue fuel w) else ret tt.
 
-(* tickit_window_unref / tickit_window_destroy and its loop over the children *)
+(* tickit_window_unref / tickit_window_destroy and its loop over the children.
+   Not modelled: the [is_destroying] flag of fixes/C08-22 (set when destroy begins; unref does not destroy such a window
+   again, and destroy's loop does not unref such a child).  Between the beginning of a window's destruction and its
+   free() nothing takes or drops a reference on it unless one of its DESTROY handlers makes calls -- and those are
+   outside the model -- so the flag is never looked at while it is set. *)
 Fixpoint unref (fuel : nat) (w : positive) {struct fuel} : M unit :=
   match fuel with
   | O => nofuel
@@ -566,7 +589,7 @@ Fixpoint root_parent_walk (fuel : nat) (p : positive) : M positive :=
 
 Definition window_new (fuel : nat) (p : positive) (hidden lowest rootparent steal : bool) : M positive :=
   p' <- (if rootparent then root_parent_walk fuel p else ret p) ;;
-  w <- allocw (mkW (Some p') None None None 1 false false true false false []) ;;
+  w <- allocw (mkW (Some p') None None None 1 false false true false false [] false) ;;
   (if hidden then upd w (fun c => set_visible c false) else ret tt) ;;;
   (if steal then upd w (fun c => set_steal c true) else ret tt) ;;;
   do_change fuel (if lowest then ChInsertLast else ChInsertFirst) p' w ;;;
@@ -601,69 +624,7 @@ Definition window_hide (fuel : nat) (w : positive) : M unit :=
     expose fuel p
   end.
 
-(* _focus_lost / _focus_gained (no FOCUS handlers are bound in the scripts) *)
-Fixpoint focus_lost (fuel : nat) (w : positive) : M unit :=
-  match fuel with
-  | O => nofuel
-  | S f =>
-    c <- getw w ;;
-    (match w_focus c with
-     | Some fc => focus_lost f fc
-     | None => ret tt
-     end) ;;;
-    c2 <- getw w ;;
-    if w_focused c2 then setw w (set_focused c2 false) else ret tt
-  end.
-
-Fixpoint focus_gained (fuel : nat) (w : positive) (child : ptr) : M unit :=
-  match fuel with
-  | O => nofuel
-  | S f =>
-    c <- getw w ;;
-    (match w_focus c, child with                 (* if(win->focused_child && win->focused_child != child) *)
-     | Some fc, Some ch => if negb (Pos.eqb fc ch) then focus_lost f fc else ret tt
-     | Some fc, None => focus_lost f fc
-     | None, _ => ret tt
-     end) ;;;
-    (match child with                            (* if(child && win->is_focused) win->is_focused = false *)
-     | Some _ => c0 <- getw w ;; if w_focused c0 then setw w (set_focused c0 false) else ret tt
-     | None => ret tt
-     end) ;;;
-    c1 <- getw w ;;
-    (match w_parent c1 with
-     | Some p => if w_visible c1 then focus_gained f p (Some w) else ret tt
-     | None => root <- get_root f w ;; request_restore root
-     end) ;;;
-    (match child with
-     | None => upd w (fun c => set_focused c true)
-     | Some _ => ret tt
-     end) ;;;
-    upd w (fun c => set_focus c child)
-  end.
-
-(* flush: the read-only walks *)
-(* _do_expose: for(child = win->first_child; child; child = child->next) { if(!child->is_visible) continue; recurse } *)
-Fixpoint do_expose (fuel : nat) (w : positive) : M unit :=
-  match fuel with
-  | O => nofuel
-  | S f =>
-    c <- getw w ;;
-    do_expose_kids f (w_first c)
-  end
-with do_expose_kids (fuel : nat) (k : ptr) : M unit :=
-  match fuel with
-  | O => nofuel
-  | S f =>
-    match k with
-    | None => ret tt
-    | Some a =>
-      c <- getw a ;;
-      (if w_visible c then do_expose f a else ret tt) ;;;
-      c2 <- getw a ;;
-      do_expose_kids f (w_next c2)
-    end
-  end.
-
+(* flush: the read-only walks of _do_restore *)
 (* _cell_visible(win, 0, 0) with every rectangle equal: a visible sibling in front hides the cell *)
 Fixpoint cell_visible_kids (fuel : nat) (k : ptr) (prev : ptr) : M bool :=
   match fuel with
@@ -728,13 +689,15 @@ Fixpoint apply_queue (fuel : nat) (req : ptr) : M unit :=
     end
   end.
 
-Definition window_flush (fuel : nat) (w : positive) : M unit :=
+(* tickit_window_flush, the part before the redraw: only the root is flushed, and only when something is pending;
+   the queued restacking requests are applied.  Answers whether the flush goes on. *)
+Definition flush_begin (fuel : nat) (w : positive) : M bool :=
   cw <- getw w ;;
   match w_parent cw with
-  | Some _ => ret tt
+  | Some _ => ret false
   | None =>
     r <- getr w ;;
-    if negb (r_later r) then ret tt
+    if negb (r_later r) then ret false
     else
       setr w (set_rlater r false) ;;;
       r1 <- getr w ;;
@@ -742,15 +705,12 @@ Definition window_flush (fuel : nat) (w : positive) : M unit :=
        | None => ret tt
        | Some _ => apply_queue fuel (r_queue r1) ;;; updr w (fun r => set_rqueue r None)
        end) ;;;
-      r2 <- getr w ;;
-      (if r_expose r2 then
-         setr w (set_rexpose r2 false) ;;;
-         do_expose fuel w ;;;
-         updr w (fun r => set_rrestore r true)
-       else ret tt) ;;;
-      r3 <- getr w ;;
-      if r_restore r3 then setr w (set_rrestore r3 false) ;;; do_restore fuel w else ret tt
+      ret true
   end.
+(* ... and the part after it: the cursor *)
+Definition flush_end (fuel : nat) (w : positive) : M unit :=
+  r3 <- getr w ;;
+  if r_restore r3 then setr w (set_rrestore r3 false) ;;; do_restore fuel w else ret tt.
 
 (* _is_in_tree(tree, win): address comparison only *)
 Fixpoint in_tree (fuel : nat) (t : positive) (w : positive) : M bool :=
@@ -809,10 +769,58 @@ Fixpoint count_up (fuel : nat) (w : ptr) : M unit :=
   | S f => match w with None => ret tt | Some a => c <- getw a ;; count_up f (w_parent c) end
   end.
 
+(* tickit_window_scrollrect(win, the two top lines at full width, one line down, pen).  Every window of a script has
+   its top-left corner at its parent's and is at least 3 lines high, so a visible window covers the scrolled
+   rectangle entirely.
+   _scroll: for(child = win->first_child; child; child = child->next) { if(!child->is_visible) continue; subtract }
+   _scrollrectset: while(win) { if(!win->is_visible) return false; parent = win->parent; if(!parent) break;
+     for(sib = parent->first_child; sib; sib = sib->next) { if(sib == win) break; if(!sib->is_visible) continue; subtract }
+     win = parent; }
+   then WINDOW_AS_ROOT(win); if anything is left of the rectangle: scroll the terminal, tickit_window_expose(origwin,
+   the line that was scrolled in, or everything if the terminal could not scroll), _request_restore(root). *)
+Fixpoint any_visible (fuel : nat) (k : ptr) : M bool :=
+  match fuel with
+  | O => nofuel
+  | S f =>
+    match k with
+    | None => ret false
+    | Some s => cs <- getw s ;; r <- any_visible f (w_next cs) ;; ret (w_visible cs || r)
+    end
+  end.
+Fixpoint sib_walk (fuel : nat) (k : ptr) (a : positive) : M bool :=
+  match fuel with
+  | O => nofuel
+  | S f =>
+    match k with
+    | None => ret false
+    | Some s => if Pos.eqb s a then ret false else cs <- getw s ;; r <- sib_walk f (w_next cs) a ;; ret (w_visible cs || r)
+    end
+  end.
+(* answers None if some window on the way is hidden, else the window at the top and whether the rectangle is covered *)
+Fixpoint scroll_up (fuel : nat) (a : positive) (covered : bool) : M (option (positive * bool)) :=
+  match fuel with
+  | O => nofuel
+  | S f =>
+    c <- getw a ;;
+    if negb (w_visible c) then ret None
+    else match w_parent c with
+         | None => getr a ;;; ret (Some (a, covered))
+         | Some p => cp <- getw p ;; cov <- sib_walk f (w_first cp) a ;; scroll_up f p (covered || cov)
+         end
+  end.
+Definition scrollrect (fuel : nat) (w : positive) : M unit :=
+  c <- getw w ;;
+  cov <- any_visible fuel (w_first c) ;;
+  r <- scroll_up fuel w cov ;;
+  match r with
+  | Some (top, false) => expose fuel w ;;; request_restore top
+  | _ => ret tt
+  end.
+
 Definition root_bound : M bool := fun h => Ok (PM.mem 1%positive (wins h)) h.
 
 Definition handler_fires_mouse (h : handler) (t : mtype) : bool :=
-  negb (h_key h) && Z.testbit (h_mask h) (mtype_bit t).
+  h_is HMouse h && Z.testbit (h_mask h) (mtype_bit t).
 
 (* ---- the API calls of a script, the event dispatch and the handlers it runs ----------- *)
 Fixpoint run_op (fuel : nat) (o : op) {struct fuel} : M unit :=
@@ -828,7 +836,13 @@ Fixpoint run_op (fuel : nat) (o : op) {struct fuel} : M unit :=
     | ORestack ch w => request_change f ch w
     | OShow w => window_show f w
     | OHide w => window_hide f w
-    | OFocus w => focus_gained f w None
+    | OFocus w =>                                         (* tickit_window_take_focus: the ancestors are held *)
+      if v_events_asis V then focus_gained f w None
+      else
+        cd <- getw w ;; count_up f (w_parent cd) ;;;
+        cd' <- getw w ;; held <- ref_up f (w_parent cd') ;;
+        focus_gained f w None ;;;
+        unref_list f held
     | OSteal w b => upd w (fun c => set_steal c b)
     | OExpose w => expose f w
     | OGetRoot w => get_root f w ;;; ret tt
@@ -837,8 +851,29 @@ Fixpoint run_op (fuel : nat) (o : op) {struct fuel} : M unit :=
     | OKey => b <- root_bound ;; if b then handle_key f 1%positive ;;; ret tt else ret tt     (* on_term_key *)
     | OMouse t => b <- root_bound ;; if b then on_term_mouse f t else ret tt
     | OBind w id k m r acts => upd w (fun c => set_hs c (w_hs c ++ [mkH id k m r acts]))
+    | ONotify w b => upd w (fun c => set_fcn c b)
     | OUnbind w id => upd w (fun c => set_hs c (filter (fun hd => negb (h_id hd =? id)) (w_hs c)))
-    | OGeom w => getw w ;;; ret tt
+    | OGeom w => set_geometry f w
+    | OMove w =>
+      getw w ;;;
+      if v_events_asis V then
+        set_geometry f w ;;;
+        c2 <- getw w ;; if w_focused c2 then root <- get_root f w ;; request_restore root else ret tt
+      else                                                (* the ancestors and the window are held across the call *)
+        cd <- getw w ;; count_up f (w_parent cd) ;;;
+        cd' <- getw w ;; held <- ref_up f (w_parent cd') ;;
+        ((log_op (OFrameRef w) ;;; window_ref w) ;;;
+         (set_geometry f w ;;;
+          (c2 <- getw w ;; if w_focused c2 then focus_chain_changed f (Some w) else ret tt)) ;;;
+         (log_op (OFrameUnref w) ;;; unref f w)) ;;;
+        unref_list f held
+    (* the terminal's RESIZE binding of the root window exists exactly while it lives *)
+    | OResize =>
+      b <- root_bound ;; (if b then on_term_resize f else ret tt) ;;;
+      b2 <- root_bound ;; if b2 then expose f 1%positive else ret tt
+    | OTouch w j walk =>
+      getw w ;;; (match j with Some a => getw a ;;; ret tt | None => ret tt end) ;;;
+      if walk then scrollrect f w else ret tt
     | ONop => ret tt
     | OFrameRef _ | OFrameUnref _ => ret tt      (* not calls: in a script they do nothing and leave no trace *)
     end
@@ -863,7 +898,7 @@ with run_key_handlers (fuel : nat) (w : positive) (hs : list handler) {struct fu
     | [] => ret false
     | h :: hs' =>
       cw <- getw w ;;
-      if h_key h && existsb (fun hd => h_id hd =? h_id h) (w_hs cw)
+      if h_is HKey h && existsb (fun hd => h_id hd =? h_id h) (w_hs cw)
       then run_ops f (h_actions h) ;;; (if h_ret h then ret true else run_key_handlers f w hs')
       else run_key_handlers f w hs'
     end
@@ -876,13 +911,171 @@ with run_mouse_handlers (fuel : nat) (w : positive) (hs : list handler) (t : mty
     | [] => ret false
     | h :: hs' =>
       cw <- getw w ;;
-      if h_key h || negb (existsb (fun hd => h_id hd =? h_id h) (w_hs cw)) then run_mouse_handlers f w hs' t unset
+      if negb (h_is HMouse h) || negb (existsb (fun hd => h_id hd =? h_id h) (w_hs cw)) then run_mouse_handlers f w hs' t unset
       else
         (if unset then note_uninit else ret tt) ;;;
         if handler_fires_mouse h t
         then run_ops f (h_actions h) ;;; (if h_ret h then ret true else run_mouse_handlers f w hs' t unset)
         else run_mouse_handlers f w hs' t unset
     end
+  end
+(* run_events (not "whilefalse") of one of the other event kinds over the bindings of window [w]: every handler of
+   the kind that is still bound runs; its return value is not looked at *)
+with run_ev_handlers (fuel : nat) (w : positive) (hs : list handler) (k : hkind) {struct fuel} : M unit :=
+  match fuel with
+  | O => nofuel
+  | S f =>
+    match hs with
+    | [] => ret tt
+    | h :: hs' =>
+      cw <- getw w ;;
+      if h_is k h && existsb (fun hd => h_id hd =? h_id h) (w_hs cw)
+      then run_ops f (h_actions h) ;;; run_ev_handlers f w hs' k
+      else run_ev_handlers f w hs' k
+    end
+  end
+(* tickit_window_set_geometry to a different rectangle: the ancestors are held, then the window itself *)
+with set_geometry (fuel : nat) (w : positive) {struct fuel} : M unit :=
+  match fuel with
+  | O => nofuel
+  | S f =>
+    getw w ;;;
+    if v_events_asis V then c <- getw w ;; run_ev_handlers f w (w_hs c) HGeom
+    else
+      cd <- getw w ;; count_up f (w_parent cd) ;;;
+      cd' <- getw w ;; held <- ref_up f (w_parent cd') ;;
+      ((log_op (OFrameRef w) ;;; window_ref w) ;;;
+       (c <- getw w ;; run_ev_handlers f w (w_hs c) HGeom) ;;;
+       (log_op (OFrameUnref w) ;;; unref f w)) ;;;
+      unref_list f held
+  end
+(* on_term_resize with one line more: oldlines = win->rect.lines; tickit_window_resize; tickit_window_expose(the new line) *)
+with on_term_resize (fuel : nat) {struct fuel} : M unit :=
+  match fuel with
+  | O => nofuel
+  | S f =>
+    let root := 1%positive in
+    getw root ;;;
+    ((if v_events_asis V then ret tt else log_op (OFrameRef root) ;;; window_ref root) ;;;
+     (set_geometry f root ;;; expose f root) ;;;
+     (if v_events_asis V then ret tt else log_op (OFrameUnref root) ;;; unref f root))
+  end
+(* _do_expose (every rectangle intersects): a reference on the window; the children from a copy of the list, each
+   only while it still is a child; then the window's own EXPOSE handlers *)
+with do_expose (fuel : nat) (w : positive) {struct fuel} : M unit :=
+  match fuel with
+  | O => nofuel
+  | S f =>
+    (if v_events_asis V then ret tt else log_op (OFrameRef w) ;;; window_ref w) ;;;
+    ((if v_events_asis V then c <- getw w ;; expose_kids_asis f w (w_first c)
+      else kids <- copy_children f w ;; expose_kids f w kids) ;;;
+     (c <- getw w ;; run_ev_handlers f w (w_hs c) HExpose)) ;;;
+    (if v_events_asis V then ret tt else log_op (OFrameUnref w) ;;; unref f w)
+  end
+with expose_kids (fuel : nat) (w : positive) (kids : list positive) {struct fuel} : M unit :=
+  match fuel with
+  | O => nofuel
+  | S f =>
+    match kids with
+    | [] => ret tt
+    | k :: kids' =>
+      still <- is_child f w k ;;
+      if negb still then expose_kids f w kids'
+      else
+        ck <- getw k ;;
+        if negb (w_visible ck) then expose_kids f w kids'
+        else do_expose f k ;;; (is_child f w k ;;; expose_kids f w kids')      (* the mask only if it still is a child *)
+    end
+  end
+(* pinned: for(child = win->first_child; child; child = child->next) { if(!child->is_visible) continue; ...; mask(&child->rect); } *)
+with expose_kids_asis (fuel : nat) (w : positive) (child : ptr) {struct fuel} : M unit :=
+  match fuel with
+  | O => nofuel
+  | S f =>
+    match child with
+    | None => ret tt
+    | Some k =>
+      ck <- getw k ;;
+      (if w_visible ck then do_expose f k ;;; getw k ;;; ret tt else ret tt) ;;;
+      ck2 <- getw k ;;
+      expose_kids_asis f w (w_next ck2)
+    end
+  end
+(* _focus_lost *)
+with focus_lost (fuel : nat) (w : positive) {struct fuel} : M unit :=
+  match fuel with
+  | O => nofuel
+  | S f =>
+    (if v_events_asis V then ret tt else log_op (OFrameRef w) ;;; window_ref w) ;;;
+    ((c <- getw w ;;
+      match w_focus c with
+      | Some fc =>
+        focus_lost f fc ;;;
+        (c' <- getw w ;; if w_fcn c' then run_ev_handlers f w (w_hs c') HFocus else ret tt)
+      | None => ret tt
+      end) ;;;
+     (c2 <- getw w ;;
+      if w_focused c2 then setw w (set_focused c2 false) ;;; (c3 <- getw w ;; run_ev_handlers f w (w_hs c3) HFocus) else ret tt)) ;;;
+    (if v_events_asis V then ret tt else log_op (OFrameUnref w) ;;; unref f w)
+  end
+(* _focus_gained *)
+with focus_gained (fuel : nat) (w : positive) (child : ptr) {struct fuel} : M unit :=
+  match fuel with
+  | O => nofuel
+  | S f =>
+    (if v_events_asis V then ret tt else log_op (OFrameRef w) ;;; window_ref w) ;;;
+    ((c <- getw w ;;
+      match w_focus c with                         (* if(win->focused_child && win->focused_child != child) *)
+      | Some fc =>
+        if negb (ptr_eqb (Some fc) child) then
+          focus_lost f fc ;;;
+          (c' <- getw w ;; if w_fcn c' then run_ev_handlers f w (w_hs c') HFocus else ret tt)
+        else ret tt
+      | None => ret tt
+      end) ;;;
+     ((match child with                             (* if(child && win->is_focused) *)
+       | Some _ =>
+         c0 <- getw w ;;
+         if w_focused c0 then setw w (set_focused c0 false) ;;; (c0' <- getw w ;; run_ev_handlers f w (w_hs c0') HFocus) else ret tt
+       | None => ret tt
+       end) ;;;
+      ((c1 <- getw w ;;
+        match w_parent c1 with
+        | Some p => if w_visible c1 then focus_gained f p (Some w) else ret tt
+        | None =>                                  (* not necessarily the root: a handler may have closed the window *)
+          if v_events_asis V then root <- get_root f w ;; request_restore root else focus_chain_changed f (Some w)
+        end) ;;;
+       ((match child with
+         | None => upd w (fun c => set_focused c true) ;;; (c4 <- getw w ;; run_ev_handlers f w (w_hs c4) HFocus)
+         | Some _ => c4 <- getw w ;; if w_fcn c4 then run_ev_handlers f w (w_hs c4) HFocus else ret tt
+         end) ;;;
+        (* win->focused_child = (child && child->parent != win) ? NULL : child   (pinned: = child) *)
+        (match child with
+         | Some ch =>
+           if v_events_asis V then upd w (fun c => set_focus c child)
+           else cch <- getw ch ;; upd w (fun c => set_focus c (if ptr_eqb (w_parent cch) (Some w) then child else None))
+         | None => upd w (fun c => set_focus c None)
+         end))))) ;;;
+    (if v_events_asis V then ret tt else log_op (OFrameUnref w) ;;; unref f w)
+  end
+(* tickit_window_flush *)
+with window_flush (fuel : nat) (w : positive) {struct fuel} : M unit :=
+  match fuel with
+  | O => nofuel
+  | S f =>
+    go <- flush_begin f w ;;
+    if go then
+      (* the root is still used after the expose handlers have run: a reference on it *)
+      (if v_events_asis V then ret tt else log_op (OFrameRef w) ;;; window_ref w) ;;;
+      ((r2 <- getr w ;;
+        if r_expose r2 then
+          setr w (set_rexpose r2 false) ;;;
+          (do_expose f w ;;;
+           updr w (fun r => set_rrestore r true))
+        else ret tt) ;;;
+       flush_end f w) ;;;
+      (if v_events_asis V then ret tt else log_op (OFrameUnref w) ;;; unref f w)
+    else ret tt
   end
 with handle_key (fuel : nat) (w : positive) {struct fuel} : M bool :=
   match fuel with
@@ -1113,7 +1306,7 @@ Fixpoint run_script_from (fuel : nat) (l : list op) (step : nat) (h : heap) : ve
 End Variant.
 
 (* the state after tickit_window_new_root: the root window at address 1, exposed once *)
-Definition root_cell : wcell := mkW None None None None 1 false true true false false [].
+Definition root_cell : wcell := mkW None None None None 1 false true true false false [] false.
 Definition heap0 (V : variant) : heap :=
   mkHeap (PM.add 1%positive root_cell (PM.empty wcell)) (PM.empty qcell)
          (mkR None true true false false
